@@ -35,15 +35,18 @@ class World:
     def __init__(self, d):
         self.w = pubfile.World(d)
         self.certs = {}
+        self.k_ec = pki.Key("calendar-ec", "ec")          # a calendar-signing key that is not RSA: OpenSSL's verify call has THREE outcomes for it (verified / not / could not be carried out)
         self.p7 = self.w.p7(b"c04 publications file")
 
     def cert(self, state, T):
         """calendar-signing certificate whose validity window realises `state` relative to aggregation time T"""
         nb, na = {"valid": (T - 10 ** 6, T + 10 ** 6), "unknownId": (T - 10 ** 6, T + 10 ** 6), "badSignature": (T - 10 ** 6, T + 10 ** 6), "startsAtAggr": (T, T + 10 ** 6),
-                  "endsAtAggr": (T - 10 ** 6, T), "notYetValid": (T + 1, T + 10 ** 6), "expired": (T - 10 ** 6, T - 1)}[state]
-        k = (nb, na)
+                  "endsAtAggr": (T - 10 ** 6, T), "notYetValid": (T + 1, T + 10 ** 6), "expired": (T - 10 ** 6, T - 1),
+                  "ecValid": (T - 10 ** 6, T + 10 ** 6), "ecJunkSignature": (T - 10 ** 6, T + 10 ** 6)}[state]
+        ec = state.startswith("ec")
+        k = (nb, na, ec)
         if k not in self.certs:
-            self.certs[k] = pki.make_cert([("CN", "calendar key"), ("O", "Verif")], pubfile.CA_NAME, self.w.k_signer, self.w.k_ca, nb, na, 77)
+            self.certs[k] = pki.make_cert([("CN", "calendar key"), ("O", "Verif")], pubfile.CA_NAME, self.k_ec if ec else self.w.k_signer, self.w.k_ca, nb, na, 78 if ec else 77)
         return self.certs[k]
 
 
@@ -70,7 +73,9 @@ class Case:
         if e["rec"] == "auth":
             cert = W.cert(e["cert"], T)
             pd = ksi.tlv(0x10, ksi.tlv(0x02, ksi.uint(s.auth["time"])) + ksi.tlv(0x04, s.auth["imp"]))
-            sv = W.w.k_signer.sign(pd)
+            sv = (W.k_ec if e["cert"].startswith("ec") else W.w.k_signer).sign(pd)
+            if e["cert"] == "ecJunkSignature":
+                sv = bytes([1 + rng.randrange(0x2f)]) + rng.randbytes(rng.choice([7, 63, 70]))      # not a DER SEQUENCE{r, s}: the verification cannot even be carried out
             if e["cert"] == "badSignature":
                 sv = sv[:40] + bytes([sv[40] ^ 0x20]) + sv[41:]
             cid = pki.cert_id(cert)
